@@ -108,7 +108,7 @@ B_MC = {
         ("steps_of_nnball", "Next", _bmc(3, 2, "{0, 2, 4}", "{0, 2}", 3, L12, 3), ["InvBuildRule"], ["StepsOfNNBall"]),
         ("generalised", "GNext", _bmc(3, 2, "{0, 2, 4}", "{0, 2}", 3, L123, 3),
          ["InvPrunedM", "InvStopSound", "InvAnswer", "NoPanic", "InvFrontier"], []),
-        ("generalised_n4", "GNext", _bmc(4, 0, "{0, 2, 4}", "{}", 3, '{"l1", "l2"}', 3),
+        ("generalised_n4", "GNext", _bmc(4, 0, "{0, 2, 4}", "{}", 3, '{"l2"}', 3),
          ["InvPrunedM", "InvStopSound", "InvAnswer", "NoPanic", "InvFrontier"], []),
         ("steps_are_nnball", "GNext", _bmc(3, 2, "{0, 2, 4}", "{0, 2}", 3, L12, 2), [], ["StepsAreNNBall"]),
     ],
